@@ -37,9 +37,11 @@ Struct(s, mode, dir) ==
     [] s \in {"Flat", "Flat2"} -> St("name", FALSE, FALSE, Std)   \* flatten (one / two levels) = the inner structs' fields inline
     [] s = "OrderedAM" -> St("order", FALSE, FALSE, [Std EXCEPT ![1].am = TRUE, ![2].am = TRUE, ![4].am = TRUE])
     [] s = "NameAM" -> St("name", FALSE, FALSE, [Std EXCEPT ![2].am = TRUE, ![4].am = TRUE])
+    [] s = "OrderedAMDN" -> St("order", FALSE, FALSE, [Std EXCEPT ![1].am = TRUE, ![1].dn = (dir = "de"), ![2].opt = TRUE, ![3].am = TRUE,
+                                                              ![4].am = TRUE, ![4].dn = (dir = "de")])
     [] s = "OrderedRenamedSkip" -> St("order", FALSE, FALSE, [Std EXCEPT ![2].n = "bb", ![3].skip = TRUE])
 Structs == {"Plain", "Same", "Opt", "Renamed", "Skip", "Ordered", "OrderedSame", "OrderedNoNames", "Forbid",
-            "OrderedForbid", "AllowMissing", "DefaultNull", "Flat", "Flat2", "OrderedAM", "NameAM", "OrderedRenamedSkip"}
+            "OrderedForbid", "AllowMissing", "DefaultNull", "Flat", "Flat2", "OrderedAM", "NameAM", "OrderedRenamedSkip", "OrderedAMDN"}
 
 \* a Rust field type fits a database type (C17's relation restricted to the four field types)
 FitsT(t, T) == T.k = "native" /\ (IF t = "text" THEN T.n \in {"text", "ascii"} ELSE T.n = t)
